@@ -22,6 +22,7 @@ type TempoController struct {
 }
 
 func (t *TempoController) Trace(w http.ResponseWriter, r *http.Request) {
+	defer tamePanic(w, r)
 	internalCtx, err := RunPreRequestPlugins(r)
 	if err != nil {
 		PromError(500, err.Error(), w)
@@ -135,6 +136,7 @@ func (t *TempoController) Echo(w http.ResponseWriter, r *http.Request) {
 }
 
 func (t *TempoController) Tags(w http.ResponseWriter, r *http.Request) {
+	defer tamePanic(w, r)
 	internalCtx, err := RunPreRequestPlugins(r)
 	if err != nil {
 		PromError(500, err.Error(), w)
@@ -163,6 +165,7 @@ func (t *TempoController) Tags(w http.ResponseWriter, r *http.Request) {
 }
 
 func (t *TempoController) TagsV2(w http.ResponseWriter, r *http.Request) {
+	defer tamePanic(w, r)
 	var err error
 	internalCtx, err := RunPreRequestPlugins(r)
 	if err != nil {
@@ -228,6 +231,7 @@ func (t *TempoController) TagsV2(w http.ResponseWriter, r *http.Request) {
 }
 
 func (t *TempoController) ValuesV2(w http.ResponseWriter, r *http.Request) {
+	defer tamePanic(w, r)
 	var err error
 	internalCtx, err := RunPreRequestPlugins(r)
 	if err != nil {
@@ -291,6 +295,7 @@ func (t *TempoController) ValuesV2(w http.ResponseWriter, r *http.Request) {
 }
 
 func (t *TempoController) Values(w http.ResponseWriter, r *http.Request) {
+	defer tamePanic(w, r)
 	internalCtx, err := RunPreRequestPlugins(r)
 	if err != nil {
 		PromError(500, err.Error(), w)
@@ -321,6 +326,7 @@ func (t *TempoController) Values(w http.ResponseWriter, r *http.Request) {
 }
 
 func (t *TempoController) Search(w http.ResponseWriter, r *http.Request) {
+	defer tamePanic(w, r)
 	internalCtx, err := RunPreRequestPlugins(r)
 	if err != nil {
 		PromError(500, err.Error(), w)
